@@ -613,7 +613,7 @@ func (en *Engine) execSlice(st *State, f *Frame, x *ssa.Slice) Value {
 		return SliceV{R: b.R, Path: b.Path, Off: lo, Len: Sub(hi, lo), Cap: Sub(mx, lo), Elem: at.Elem()}
 	case SliceV:
 		if hi == nil {
-			hi = b.Len
+			hi = en.fix(st, b.Len)
 		}
 		if mx == nil {
 			mx = b.Cap
@@ -987,4 +987,16 @@ func baseAllocName(v ssa.Value) string {
 			return ""
 		}
 	}
+}
+
+// fix replaces a term whose value is determined by the path condition (interval of width 0) by that constant.
+func (en *Engine) fix(st *State, t *Term) *Term {
+	if t.op == OConst {
+		return t
+	}
+	if iv := st.bounds.Interval(t); iv.lo != nil && iv.hi != nil && iv.lo.Cmp(iv.hi) == 0 {
+		st.addSide(Eq(t, Const(iv.lo)), "value fixed by the path condition")
+		return Const(iv.lo)
+	}
+	return t
 }
